@@ -511,6 +511,8 @@ func c02Related(tokNS, reqNS string) string {
 		return "root-namespace"
 	case strings.HasPrefix(tokNS, reqNS):
 		return "ancestor"
+	case strings.HasPrefix(reqNS, strings.TrimSuffix(tokNS, "/")):
+		return "prefix-sibling" // "ab/" or "a-b/in/" seen from "a/": the name continues, the namespace is another one
 	}
 	return "sibling"
 }
@@ -560,7 +562,20 @@ func (x *c02Run) nsRootSweep(stage string, sample int) {
 				pq{"update", "auth/token/create-orphan", map[string]any{"policies": []string{"c02-all"}, "ttl": "5m"}},
 				pq{"update", "cubbyhole/c02sweep", map[string]any{"v": "x"}},
 				pq{"list", "identity/entity/id/", nil},
+				// namespace and lease administration (their handlers compare namespace paths themselves)
+				pq{"list", "sys/namespaces/", nil},
+				pq{"update", "sys/namespaces/c02probe", map[string]any{}},
+				pq{"delete", "sys/namespaces/c02probe", nil},
+				pq{"update", "sys/namespaces/c02probe/seal", nil},
+				pq{"read", "sys/leases/count", map[string]any{"type": "irrevocable", "include_child_namespaces": true}},
+				pq{"list", "sys/leases/lookup/auth/token/create/", nil},
 			)
+			for _, lt := range w.Toks { // a lease that lives in this namespace, named to lookup
+				if lt.Keys != nil && lt.NS == ns && lt.Keys.LeaseID != "" {
+					ps = append(ps, pq{"update", "sys/leases/lookup", map[string]any{"lease_id": lt.Keys.LeaseID}})
+					break
+				}
+			}
 			if sample > 0 && len(ps) > sample { // a generated subset
 				rng.Shuffle(len(ps), func(i, j int) { ps[i], ps[j] = ps[j], ps[i] })
 				ps = ps[:sample]
@@ -569,7 +584,7 @@ func (x *c02Run) nsRootSweep(stage string, sample int) {
 				if x.aborted {
 					return
 				}
-				if strings.HasPrefix(p.path, "sys/mounts/c02sweep") && strings.HasPrefix(ns, t.NS) {
+				if (strings.HasPrefix(p.path, "sys/mounts/c02sweep") || strings.HasPrefix(p.path, "sys/namespaces/c02probe")) && strings.HasPrefix(ns, t.NS) {
 					continue // would be served and change the mount table behind the reference's back
 				}
 				q := &c02Req{Tok: t, Op: p.op, Path: p.path, Header: ns, Data: p.data, Why: "namespace-root sweep"}
@@ -878,7 +893,7 @@ func TestVerif_C02_NamespaceRoot(t *testing.T) {
 	if shards > 1 && shard > 1 {
 		t.Skip("the matrix is not sharded beyond the store kind: shards 0 and 1 run it")
 	}
-	r := kit.NewResult(t, "c02-nsroot", seed, "a namespace tree root > {nsa (own shamir seal) > kid, nsb (own seal) > deep (own seal) > leaf, nsc} on both store kinds; in every sealable namespace the root generation ceremony is run through the API with that namespace's key shares; each resulting token, a child and an orphan child created by it with policies=[root], and a root-policy token of each plain namespace are presented with every namespace of the tree (header, path prefix, split, 'root' header) on recording secrets and auth mounts (read, write, list, delete, root-protected path) and on system / token / cubbyhole / identity paths; reference: such a token is root inside its own namespace subtree and has no authority anywhere else (no handler, non-error, data or storage change). A request is non-trivial when it was refused outside the subtree or handled inside it; distinct by (token, relation of the request namespace, op, path)")
+	r := kit.NewResult(t, "c02-nsroot", seed, "a namespace tree root > {nsa (own shamir seal) > {kid, kid2}, nsab (own seal) > deep (own seal) > leaf, nsa-b, nsc} - siblings whose names are string prefixes of one another at the top level and nested - on both store kinds; in every sealable namespace the root generation ceremony is run through the API with that namespace's key shares; each resulting token, a child and an orphan child created by it with policies=[root], and a root-policy token of each plain namespace are presented with every namespace of the tree (header, path prefix, split, 'root' header) on recording secrets and auth mounts (read, write, list, delete, root-protected path) and on system / token / cubbyhole / identity paths; reference: such a token is root inside its own namespace subtree and has no authority anywhere else (no handler, non-error, data or storage change). A request is non-trivial when it was refused outside the subtree or handled inside it; distinct by (token, relation of the request namespace, op, path)")
 	r.Exhaustive = true
 	defer r.Write(t)
 	for ti, tx := range []bool{false, true} {
@@ -892,7 +907,7 @@ func TestVerif_C02_NamespaceRoot(t *testing.T) {
 			sealable     bool
 			shares       []string
 		}
-		tree := []*nsd{{"", "nsa", true, nil}, {"nsa/", "kid", false, nil}, {"", "nsb", true, nil}, {"nsb/", "deep", true, nil}, {"nsb/deep/", "leaf", false, nil}, {"", "nsc", false, nil}}
+		tree := []*nsd{{"", "nsa", true, nil}, {"nsa/", "kid", false, nil}, {"nsa/", "kid2", false, nil}, {"", "nsab", true, nil}, {"nsab/", "deep", true, nil}, {"nsab/deep/", "leaf", false, nil}, {"", "nsa-b", false, nil}, {"", "nsc", false, nil}}
 		x.w.NSs = []string{""}
 		for _, d := range tree {
 			data := map[string]any{}
@@ -962,6 +977,7 @@ func TestVerif_C02_NamespaceRoot(t *testing.T) {
 	r.Require("nsroot_outside_subtree_refused:root-namespace", 300)
 	r.Require("nsroot_outside_subtree_refused:ancestor", 60)
 	r.Require("nsroot_outside_subtree_refused:sibling", 600)
+	r.Require("nsroot_outside_subtree_refused:prefix-sibling", 600)
 	r.Require("nsroot_outside_subtree_refused_on:secrets", 400)
 	r.Require("nsroot_outside_subtree_refused_on:auth", 100)
 	r.Require("nsroot_outside_subtree_refused_on:sys", 400)
